@@ -248,6 +248,11 @@ def r18_2(ctx) -> None:
                 raise AnalysisError(f"{inst.cls.name}.{meth} vanished")
             v = F.call(FuncVal(m_, None, inst), [], {})
             got = _token_bytes_arg(v)
+            # the size is the model's own: nothing a caller passes can change it
+            extra = [p_ for p_ in m_.params if p_ != m_.self_name]
+            argsites = [s_ for f_ in P.all_functions() for s_ in eng.cg.calls_in(f_) if m_ in s_.callees and isinstance(s_.node, ast.Call) and (s_.node.args or s_.node.keywords)]
+            ctx.check(not extra and not argsites, "R18.2", m_, m_.node, f"{name} {meth} :: parameters", f"{inst.cls.name}.{meth} takes {extra}: the size of the generated {what} can be chosen by the "
+                      f"caller ({[norm(s_.node)[:50] for s_ in argsites][:2]}) instead of being exactly the {bits} bits the algorithm requires", f"{meth}(self)", construct=f"{what} size chosen by the caller of {meth}")
             ctx.check_folded(v, got == bits // 8, "R18.2", m_, m_.node, f"{name} {meth}", f"{name}: generated {what} folds to {v!r}; required {bits // 8} octets from a CSPRNG",
                       f"token_bytes({got})", construct=f"{what} size of {name}")
         for attr, bits in (("iv_size", iv_bits), ("cek_size", cek_bits)):
